@@ -232,6 +232,28 @@ class C01Spec(explore.Spec):
             for v in vs:
                 v.replay = {"kind": "history", "check": PROP, "cfg": cfg, "history": list(hist) + [ev]}
             viols.extend(vs)
+        if mqtt:
+            # topics that are not of the subscribed shape (prefix + five levels): a broker can deliver them all the same
+            # (wildcard subscriptions of the application, retained messages): no exception, no effect
+            pre = world.in_prefix
+            for topic in ["", "/", pre, pre + "/", pre + "/1", pre + "/1/1", pre + "/1/1/2", pre + "/1/1/1/1", "/1/1/2", "1", "1/1/1/1/1",
+                          pre + "/1/0/1/0/2/9", "other/1/0/1/0/2", pre + "x/1/0/1/0/2", pre + "/a/b/c/d/e", pre + "//////"]:
+                for qos in (0, 1):
+                    if dirty:
+                        world = fresh()
+                        dirty = False
+                    ev = ("topic", topic, "1", qos)
+                    mon = mon_base.clone()
+                    mon.last_key = base_key
+                    obs = world.apply(ev)
+                    vs = mon.step(world, ev, obs) or []
+                    stats["probes"] += 1
+                    stats["probe_class:mqtt-odd-topic"] += 1
+                    if obs.exc is not None or world.key(None) != base_key:
+                        dirty = True
+                    for v in vs:
+                        v.replay = {"kind": "history", "check": PROP, "cfg": cfg, "history": list(hist) + [ev]}
+                    viols.extend(vs)
         return viols
 
 
